@@ -283,6 +283,37 @@ def c11(case, lines):
                 if v == 0:
                     return "zero: packet identifier 0 handed out (operation %s)" % p[2]
                 seen_order.append(v)
+    # scripts with real concurrent operations: every PUBLISH (QoS>0), SUBSCRIBE and UNSUBSCRIBE on the wire carries a
+    # non-zero identifier that no other still-outstanding operation carries, and every SUBSCRIBE its own subscription id
+    tr = Trace(case, lines)
+    if not has(tr, "spin", "reconnect") and not tr.faulty:
+        conn = connection_streams(tr)[0]
+        inp, outp = inbound(tr, conn), outbound(tr, conn)
+        if inp is not None and outp is not None:
+            timeline = [(k, 0, o) for k, o in outp] + [(k, 1, rx_info(p)) for k, p in inp]
+            timeline.sort(key=lambda x: (x[0], x[1]))
+            outstanding, subids = {}, set()
+            for k, side, x in timeline:
+                if side == 0:
+                    if (x["kind"] == "publish" and x["qos"] > 0 and not x["dup"]) or x["kind"] in ("subscribe", "unsubscribe"):
+                        pid = x["pid"]
+                        if pid == 0:
+                            return "zero: packet identifier 0 on the wire (%s, event %d)" % (x["kind"], k)
+                        if pid in outstanding:
+                            return "unique: %s at event %d carries packet identifier %d, still in use by an outstanding %s" % (
+                                x["kind"], k, pid, outstanding[pid])
+                        outstanding[pid] = x["kind"]
+                    if x["kind"] == "subscribe":
+                        sid = x.get("subid")
+                        if not sid or sid in subids:
+                            return "subid: SUBSCRIBE at event %d carries subscription identifier %s (zero, missing or used before)" % (k, sid)
+                        subids.add(sid)
+                else:
+                    want = {4: "publish", 7: "publish", 9: "subscribe", 11: "unsubscribe"}.get(x["t"])
+                    if x["t"] == 5 and x.get("reason", 0) >= 128:
+                        want = "publish"
+                    if want and outstanding.get(x.get("pid")) == want:
+                        del outstanding[x["pid"]]
     # identifiers handed out fewer than 65535 allocations apart differ
     last = {}
     for n, v in enumerate(seen_order):
@@ -338,6 +369,12 @@ def c13(case, lines):
     start, end = run_window(tr)
     rr = tr.run_result()
     cid = case["id"]
+    if cid.startswith("connack-refusal-"):
+        c = [x for k in tr.by for x in tr.by[k] if x.startswith("C ")]
+        r = int(cid.split("-")[2][1:])
+        if not c or not c[0].startswith("C err Connect r=%d " % r):
+            return "connect: refusing CONNACK (reason %d) gave %s" % (r, c[:1])
+        return None
     if cid.startswith("connack-r"):
         r = int(cid[9:])
         c = [x for k in tr.by for x in tr.by[k] if x.startswith("C ")]
@@ -374,6 +411,13 @@ def c13(case, lines):
             return "exits: server DISCONNECT reason 0 gave %s" % res
         if r != 0 and not res.startswith("err Disconnected r=%d " % r):
             return "exits: server DISCONNECT reason %d gave %s" % (r, res)
+    elif kind == "glued":
+        d = bytes.fromhex(cid.split("-")[-1])
+        r = d[2] if d[1] > 0 else 0
+        if r == 0 and res != "ok":
+            return "exits: server DISCONNECT reason 0 delivered in the same read as another packet gave %s" % res
+        if r != 0 and not res.startswith("err Disconnected r=%d " % r):
+            return "exits: server DISCONNECT reason %d delivered in the same read as another packet gave %s" % (r, res)
     elif kind in ("eof", "rerr", "werr"):
         if res != "err SocketClosed":
             return "exits: %s gave %s" % (kind, res)
@@ -433,6 +477,29 @@ def c14(case, lines):
         last = tr.by.get(ks[-1], [])
         if any(x.startswith("N %d" % j) for x in last):
             return "streams: stream %d still pending after the context was dropped" % j
+    return None
+
+
+def written_before_complete(case, lines):
+    """a fire-and-forget request (QoS 0 publish, disconnect) reports success only once its packet is on the wire in full;
+    nothing is reported while the transport has accepted only a part of it"""
+    tr = Trace(case, lines)
+    if has(tr, "reconnect", "werr"):
+        return None
+    specs, fp = op_specs(tr), first_polls(tr)
+    wire = bytearray()
+    for k in range(len(tr.evs)):
+        for r in tr.by.get(k, []):
+            if r.startswith("W "):
+                wire += M.unhex(r[2:])
+        for r in tr.by.get(k, []):
+            if r.startswith("D "):
+                op = int(r.split(" ")[1])
+                sp = specs.get(op)
+                if sp and r.split(" ", 2)[2] == "ok" and (sp["kind"] == "disc" or (sp["kind"] == "pub" and sp["args"].get("q", "0") == "0")):
+                    if M.split_packets(bytes(wire)) is None:
+                        return "early: operation %d (%s) reported success at event %d while its packet was only partly written (%d bytes on the wire)" % (
+                            op, sp["kind"], k, len(wire))
     return None
 
 
@@ -567,6 +634,15 @@ def c05(case, lines):
 
 @oracle("C06")
 def c06(case, lines):
+    w = written_before_complete(case, lines)
+    if w:
+        return w
+    if not case.get("model", True):
+        return None
+    return c06_main(case, lines)
+
+
+def c06_main(case, lines):
     m = completion_monitor(case, lines)
     if m:
         return m
@@ -736,10 +812,6 @@ def c17(case, lines):
     conns = connection_streams(tr)
     if len(conns) < 2:
         return None
-    sei = 0
-    m = re.search(r"sei=(\d+)", tr.evs[0])
-    if m:
-        sei = int(m.group(1))
     pending = []          # unfinished handshakes in original order: (kind, pid, original packet info)
     for j, conn in enumerate(conns):
         inj, outj = inbound(tr, conn), outbound(tr, conn)
@@ -750,6 +822,18 @@ def c17(case, lines):
             if not md:
                 return None
             elapsed = int(md[-1].split()[1])
+            # the interval in force is the one this connection was opened with (Connection.session_expiry_interval:
+            # the CONNECT's value, 0 when omitted, replaced by the CONNACK's when the server sends one)
+            sei = 0
+            ce = [e for e in tr.evs[conn["first"]:conn["last"] + 1] if e.startswith("connect")]
+            m = re.search(r"sei=(\d+)", ce[0]) if ce else None
+            if m:
+                sei = int(m.group(1))
+            for k in range(conn["first"], conn["last"] + 1):
+                for x in tr.by.get(k, []):
+                    m = re.match(r"C ok .*\bsei=(\d+)", x)
+                    if m:
+                        sei = int(m.group(1))
             expired = sei == 0 or (sei != 4294967295 and elapsed > sei)
             runj = next((k for k, e in enumerate(tr.evs) if e == "run" and conn["first"] < k <= conn["last"]), None)
             if runj is None:
